@@ -6,6 +6,9 @@
 (*   conv   : valid cross-correlation over input channels, per batch item  *)
 (*            and output channel, plus bias                                *)
 (*   roundtrip : output re-encoding is the inverse of output decoding      *)
+(*   rnsp   : the RNS-plaintext wrapper computes modulo t_1 * ... * t_k    *)
+(*   *_ckks : the CKKS variants compute the same functions over the        *)
+(*            integers within 2^-5                                         *)
 (* Matrices are flat row-major sequences as the helpers take them.         *)
 (***************************************************************************)
 EXTENDS Integers, Sequences, TLC
@@ -33,8 +36,44 @@ ConvSpec(x, wt, b, bs, ci, co, h, w, kh, kw, t) ==
                      Mod(x[bb*ci*h*w + ic*h*w + (oi+ki)*w + (oj+kj) + 1] * wt[oc*ci*kh*kw + ic*kh*kw + ki*kw + kj + 1], t)]
      IN Mod(SumTo(terms, ci*kh*kw) + b[p], t)]
 
+\* CKKS variants: the same functions over the integers (operands are small integers), results within 2^-5 (recorded in units of 2^-10)
+MatMulInt(x, w, b, m, r, n) ==
+  [p \in 1..(m*n) |->
+     LET i == (p - 1) \div n  j == (p - 1) % n IN
+     SumTo([k \in 1..r |-> x[i*r + k] * w[(k-1)*n + j + 1]], r) + b[p]]
+ConvInt(x, wt, b, bs, ci, co, h, w, kh, kw) ==
+  LET oh == h - kh + 1  ow == w - kw + 1 IN
+  [p \in 1..(bs*co*oh*ow) |->
+     LET q == p - 1
+         bb == q \div (co*oh*ow)
+         oc == (q \div (oh*ow)) % co
+         oi == (q \div ow) % oh
+         oj == q % ow
+         terms == [s \in 1..(ci*kh*kw) |->
+                     LET u == s - 1  ic == u \div (kh*kw)  ki == (u \div kw) % kh  kj == u % kw IN
+                     x[bb*ci*h*w + ic*h*w + (oi+ki)*w + (oj+kj) + 1] * wt[oc*ci*kh*kw + ic*kh*kw + ki*kw + kj + 1]]
+     IN SumTo(terms, ci*kh*kw) + b[p]]
+AbsI(a) == IF a < 0 THEN 0 - a ELSE a
+Within(y1024, exp) == Len(y1024) = Len(exp) /\ \A p \in 1..Len(exp) : AbsI(y1024[p] - 1024 * exp[p]) <= 32
+
+\* RNS-plaintext wrapper: plain modulus T = product of the component moduli; slot-wise (or coefficient-wise) arithmetic modulo T
+RECURSIVE ProdSeq(_, _)
+ProdSeq(s, k) == IF k = 0 THEN 1 ELSE s[k] * ProdSeq(s, k-1)
+RnspSpec(e) ==
+  LET T == ProdSeq(e.moduli, Len(e.moduli)) IN
+  [i \in 1..Len(e.a) |->
+     CASE e.op = "id"  -> e.a[i]
+       [] e.op = "neg" -> Mod(T - e.a[i], T)
+       [] e.op \in {"add", "add_plain"} -> Mod(e.a[i] + e.b[i], T)
+       [] e.op \in {"sub", "sub_plain"} -> Mod(e.a[i] + T - e.b[i], T)
+       [] e.op \in {"mul", "mul_plain"} -> Mod(e.a[i] * e.b[i], T)
+       [] e.op = "square" -> Mod(e.a[i] * e.a[i], T)]
+
 MatEventOk(e) ==
-  CASE e.k = "matmul" -> e.y = MatMulSpec(e.x, e.w, e.bias, e.m, e.r, e.n, e.t)
+  CASE e.k = "rnsp" -> e.out = RnspSpec(e)
+    [] e.k = "matmul_ckks" -> Within(e.y1024, MatMulInt(e.x, e.w, e.bias, e.m, e.r, e.n))
+    [] e.k = "conv_ckks" -> Within(e.y1024, ConvInt(e.x, e.w, e.bias, e.bs, e.ci, e.co, e.h, e.wd, e.kh, e.kw))
+    [] e.k = "matmul" -> e.y = MatMulSpec(e.x, e.w, e.bias, e.m, e.r, e.n, e.t)
     [] e.k = "conv" -> e.y = ConvSpec(e.x, e.w, e.bias, e.bs, e.ci, e.co, e.h, e.wd, e.kh, e.kw, e.t)
     [] e.k = "roundtrip" -> e.out = e.v
     [] OTHER -> FALSE
